@@ -147,6 +147,18 @@ func syntheticCells() []cell {
 			}
 		}
 	}
+	// characteristics of a format the library has no constant for (HAP's own name "int", no format at all): there is no
+	// declared type to hold the value to, but updates must not panic and the database must encode
+	for _, f := range []string{"int", ""} {
+		f := f
+		out = append(out, cell{name: fmt.Sprintf("synthetic/custom-format-%q/pr+pw+ev", f), mk: func() interface{} {
+			c := characteristic.NewCharacteristic("FFF6")
+			c.Format = f
+			c.Perms = []string{"pr", "pw", "ev"}
+			c.UpdateValue(1)
+			return c
+		}})
+	}
 	return out
 }
 
@@ -288,7 +300,7 @@ func runCellWord(b Beh, steps []ccStep, cl cell, k int) []J {
 			before := fmt.Sprintf("%#v", c.Value)
 			cbr, cbl = 0, 0
 			o := J{"ev": "upd", "case": b.ID, "i": i, "cell": cl.name, "fmt": fmtClass(c.Format), "perms": perms, "a": s.A, "cls": s.Cls, "remote": s.Remote,
-				"panic": false, "getpanic": false}
+				"panic": false, "getpanic": false, "fmtknown": !strings.HasPrefix(fmtClass(c.Format), "other:")}
 			switch s.A {
 			case "Update":
 				v := concretise(s.Cls, c, s.Remote, kk)
